@@ -15,6 +15,7 @@ package main
 // and the upper bound) and proofs of remembered leaves.
 
 import (
+	"fmt"
 	"sort"
 	"strconv"
 
@@ -33,6 +34,12 @@ func (w *driveWorld) runSparse(maxN int) {
 	w.emit(newEv("reset", w.h, w.i))
 	w.flush()
 	r := 8 + w.rng.Intn(2)
+	if w.h%4 == 3 {
+		// every fourth history: a subtree 12 rows tall (TLC then only judges the roots;
+		// positions and proofs of the partial forests are compared with the full forests)
+		r = 12
+		w.sparseTall = true
+	}
 	sz := 1 << r
 	nblk := 2 + w.rng.Intn(2)
 	n0 := sz*nblk + w.rng.Intn(sz)
@@ -80,16 +87,33 @@ func (w *driveWorld) runSparse(maxN int) {
 		if !step(d, w.rng.Intn(3)) {
 			return
 		}
-		// 3. the last leaf of the block: its tall sibling moves up, or the tree is empty
+		// 3. the last leaf of the block: its tall sibling moves up, or the tree is empty;
+		//    undone (the tall subtree moves back down) and applied again
 		if !step([]int{keep}, 0) {
 			return
 		}
-		// 4. additions up to and beyond the next multiple of the block size
+		w.undo()
+		if len(w.fails) > 0 {
+			return
+		}
+		w.observeSparse()
+		if len(w.fails) > 0 || !step([]int{keep}, 0) {
+			return
+		}
+		// 4. additions up to and beyond the next multiple of the block size; undone and applied again
 		k := (sz-int(w.n)%sz)%sz + 1 + w.rng.Intn(4)
 		if int(w.n)+k > maxN+sz {
 			k = 3
 		}
 		if !step(nil, k) {
+			return
+		}
+		w.undo()
+		if len(w.fails) > 0 {
+			return
+		}
+		w.observeSparse()
+		if len(w.fails) > 0 || !step(nil, k) {
 			return
 		}
 		// 5. some remembered leaves go
@@ -143,6 +167,42 @@ func (w *driveWorld) observeSparse() {
 		if in.Kind != KMapPart {
 			continue
 		}
+		// the partial forest against the full one (same blocks): position and proof of every
+		// remembered live leaf
+		full := w.insts[1]
+		var cs []int
+		for s := range in.cached {
+			if w.live[s] {
+				cs = append(cs, s)
+			}
+		}
+		sort.Ints(cs)
+		if len(cs) > 40 {
+			cs = append(cs[:20], cs[len(cs)-20:]...)
+		}
+		for _, s := range cs {
+			h := w.sy.H(leafTerm(s))
+			pp, fp := in.M.GetLeafPosition(h)
+			pf, ff := full.M.GetLeafPosition(h)
+			if !fp || !ff || pp != pf {
+				w.fail([]string{"C09", "C10", "C06"}, in.Name, "leafpos", fmt.Sprintf("GetLeafPosition(L%d) = (%d, %v), the full forest says (%d, %v) [%d leaves]", s, pp, fp, pf, ff, w.n))
+				return
+			}
+			a, ea := in.M.Prove([]Hash{h})
+			b, eb := full.M.Prove([]Hash{h})
+			same := ea == nil && eb == nil && eqU64s(a.Targets, b.Targets) && len(a.Proof) == len(b.Proof)
+			for i := 0; same && i < len(a.Proof); i++ {
+				same = a.Proof[i] == b.Proof[i]
+			}
+			if !same {
+				w.fail([]string{"C09", "C02", "C06"}, in.Name, "prove", fmt.Sprintf("the proof of the remembered leaf L%d differs from the full forest's (errors: %v / %v) [%d leaves]", s, ea, eb, w.n))
+				return
+			}
+			w.calls += 4
+		}
+		if w.sparseTall {
+			continue
+		}
 		pe := newEv("pos", w.h, w.i)
 		pe.Inst, pe.Partial = in.Name, true
 		for s := 0; s < int(w.n); s++ {
@@ -164,6 +224,8 @@ func (w *driveWorld) observeSparse() {
 		w.emit(pe)
 		w.dumpStored(in)
 	}
-	w.proveSome()
+	if !w.sparseTall {
+		w.proveSome()
+	}
 	w.flush()
 }
